@@ -99,6 +99,15 @@ def hubStep (st : HubSt) (ops : List String) (impl : String) : HubSt × String :
     match st.q.take (natArg r) with
     | some (q, m) => let st := { st with q }; (st, s!"got={natArg r}:{m.src}:{m.payload.length} {qObs st}")
     | none => let st := { st with qwait := st.qwait ++ [natArg r] }; (st, s!"blocked {qObs st}")
+  | ["q-late-deliver", src, len, vec] =>
+    let m : QMsg := { src := natArg src, dst := 0, payload := List.replicate (natArg len) 0 }
+    let (q, ok) := st.q.deliver m (vec != "1")
+    ({ st with q }, s!"{ok} len={q.queue.length}")
+  | ["q-late-recv", r] =>
+    if st.q.closed then (st, s!"closed len={st.q.queue.length}") else
+    match st.q.take (natArg r) with
+    | some (q, m) => ({ st with q }, s!"nil got={m.src}:{m.payload.length} len={q.queue.length}")
+    | none => (st, "blocks")
   | ["q-cancel", r] => let st := { st with qwait := st.qwait.filter (· != natArg r), q := st.q.step (.cancel (natArg r)) }; (st, s!"ctx {qObs st}")
   | ["q-release", r] => let st := { st with q := st.q.cbReturn (natArg r) }; (st, s!"ok {qObs st}")
   | ["q-purge"] => let (q, n) := st.q.purge; let st := { st with q }; (st, s!"{n} {qObs st}")
